@@ -128,10 +128,26 @@ def cycle_program(rng):
     return texts
 
 
+PRIMS16 = ["bool", "int8", "uint8", "int16", "uint16", "int32", "uint32", "varint32", "varuint32", "int64", "uint64", "varint62", "varuint62", "float32", "float64", "string"]
+
+
+def sc_ident(n, written=True):
+    """names 100..115 are the keywords of the primitive types (written with a backslash)"""
+    if n >= 100:
+        return ("\\" if written else "") + PRIMS16[n - 100]
+    return "N%d" % n
+
+
+def sc_number(ident):
+    return 100 + PRIMS16.index(ident) if ident in PRIMS16 else int(ident[1:])
+
+
 def scoped_program(rng):
     """files of names only (the vocabulary of coq/Sema/Scoped.v): module paths, definitions, members and their members drawn from a small pool so that
     scoped identifiers collide within and across files, also with module paths"""
     pool = list(range(1, rng.choice([5, 6, 8, 14, 30, 30, 60])))        # small pools: collisions everywhere; large ones: mostly accepted programs
+    if rng.random() < 0.3:
+        pool += [100 + rng.randrange(16) for _ in range(rng.choice([1, 2, 4]))]      # now and then a name that a primitive type's keyword spells
     nm = lambda: rng.choice(pool)
     files = []
     for fid in range(rng.choice([2, 2, 3, 4])):
@@ -158,11 +174,11 @@ def scoped_render(f):
     """-> (text with one identifier per line, {path: (row, col)}); a file without a module is a comment"""
     if f["module"] is None:
         return "// nothing here\n", {}
-    I = lambda n: "N%d" % n
+    I = sc_ident
     lines, where = ["module " + "::".join(I(n) for n in f["module"])], {}
     def put(text, path):
         lines.append(text)
-        where[path] = (len(lines), len(text) - len(text.lstrip()) + 1)
+        where[path] = (len(lines), len(text) - len(text.lstrip()) + 1)       # (an identifier's extent includes its backslash)
     for di, d in enumerate(f["defs"]):
         if d[0] == "S":
             lines.append("struct")
@@ -243,7 +259,7 @@ def scoped_keys(rng, files):
                     ks += [tuple(mp + [d[1], m, x]) for x in ps + rs]
     ks = sorted(set(ks))
     rng.shuffle(ks)
-    return ks[:14] + [tuple(rng.choice([1, 2, 3, 9]) for _ in range(rng.choice([1, 2, 3])))]
+    return ks[:14] + [tuple(rng.choice([1, 2, 3, 9]) for _ in range(rng.choice([1, 2, 3]))), (100 + rng.randrange(16),)]
 
 
 def scoped_stream(ck):
@@ -266,7 +282,7 @@ def scoped_stream(ck):
         orders.append(perm)
         for order in orders:
             fs = [files[j] for j in order]
-            ilines.append("lookup - " + " ".join(hx(rendered[f["id"]][0]) for f in fs) + " -- " + " ".join(hx("::".join("N%d" % x for x in k)) for k in keys))
+            ilines.append("lookup - " + " ".join(hx(rendered[f["id"]][0]) for f in fs) + " -- " + " ".join(hx("::".join(sc_ident(x, False) for x in k)) for k in keys))
             mlines.append(scoped_model_line(fs, keys))
         progs.append((files, keys, rendered, orders))
     o = core.run_impl("lookup", ilines, chunk=200, timeout=120)
@@ -286,7 +302,7 @@ def scoped_stream(ck):
                 ck.violation("scoped-names", "crash", case, mo[:200], oo[:300], signature={"order": oi})
                 break
             other = [d for d in dl if d["code"] != "E010" and d["level"] == "Error"]
-            real_report = sorted(int(re.search(r"redefinition of 'N(\d+)'", d["msg"]).group(1)) for d in dl if d["code"] == "E010")
+            real_report = sorted(sc_number(re.search(r"redefinition of '(\w+)'", d["msg"]).group(1)) for d in dl if d["code"] == "E010")
             mrep, mlook = mo.split(" | ", 1)
             model_report = [] if mrep == "ok" else [int(x) for x in mrep.split()]
             if other:
@@ -301,7 +317,9 @@ def scoped_stream(ck):
             for item in ltxt.split(" ; "):
                 t = item.split(" ")
                 if t[0] == "module":
-                    rl.append("module " + ".".join(x[1:] for x in t[1].split("::")))
+                    rl.append("module " + ".".join(str(sc_number(x)) for x in t[1].split("::")))
+                elif t[0] == "primitive":
+                    rl.append("primitive %d" % sc_number(t[1]))
                 elif t[0] == "entity":
                     fid = order[int(t[1].rsplit("-", 1)[1])]
                     row, col = (int(x) for x in t[2].split(":"))
@@ -312,7 +330,7 @@ def scoped_stream(ck):
             ml = mlook.split(" ; ")
             if rl != ml and not model_report:
                 k = next(i for i in range(min(len(rl), len(ml))) if rl[i] != ml[i]) if len(rl) == len(ml) else 0
-                ck.violation("scoped-names", "lookup-differs", case, "%s -> %s (order %s)" % ("::".join("N%d" % x for x in keys[k]), ml[k], order), rl[k] if k < len(rl) else "?", kind="correspondence")
+                ck.violation("scoped-names", "lookup-differs", case, "%s -> %s (order %s)" % ("::".join(sc_ident(x, False) for x in keys[k]), ml[k], order), rl[k] if k < len(rl) else "?", kind="correspondence")
                 break
             seen.append((real_report, rl))
         else:
@@ -321,7 +339,7 @@ def scoped_stream(ck):
                 ck.violation("scoped-names", "acceptance-depends-on-order", case, "the same verdict in both orders", "order %s: %s; order %s: %s" % (orders[0], r0, orders[1], r1))
             elif not r0 and l0 != l1:
                 k = next(i for i in range(len(l0)) if l0[i] != l1[i])
-                ck.violation("scoped-names", "lookup-depends-on-order", case, "%s found the same in both orders" % "::".join("N%d" % x for x in keys[k]), "%s with order %s, %s with order %s" % (l0[k], orders[0], l1[k], orders[1]))
+                ck.violation("scoped-names", "lookup-depends-on-order", case, "%s found the same in both orders" % "::".join(sc_ident(x, False) for x in keys[k]), "%s with order %s, %s with order %s" % (l0[k], orders[0], l1[k], orders[1]))
     ck.samples.append({"stream": "scoped-names", "case": ilines[0][:300], "impl": o[0][:300], "model": m[0][:300]})
 
 
@@ -484,7 +502,7 @@ def run(ck):
             tlines.append(dc.run_line(False, ["--diagnostic-format", "json"], [("gen-ok-0", None, None)], [("S", names[q], texts[q]) for q in order]))
             tmeta.append((pi, j, pos))
     ot = dc.run_all(tlines, chunk=12)
-    ck.stream("listed-twice", description="programs of the orders stream with one source listed a second time at every position of the list: the verdict and the warnings of the program plus exactly one DuplicateFile warning naming that file, wherever the repeat stands")
+    ck.stream("listed-twice", description="programs of the orders stream with one source listed a second time at every position of the list: the same verdict wherever the repeat stands, exactly one DuplicateFile warning naming that file, and for accepted programs the same other warnings")
     base = {}
     for (pi, j, pos), line, oo in zip(tmeta, tlines, ot):
         ck.count("listed-twice", line, kind="position %d" % pos)
@@ -500,6 +518,8 @@ def run(ck):
         key = (pi, j)
         if len(dup) != 1:
             ck.violation("listed-twice", "duplicate-not-reported-once", case, "one DuplicateFile warning", "%d; %s" % (len(dup), [d.get("error_code") for d in ds][:8]), signature={"position": "adjacent" if pos in (j, j + 1) else "apart"})
+        if r["exit"] != "0":
+            rest = []          # a rejected program: the property asks for the same verdict, not for the same reports
         if key not in base:
             base[key] = (r["exit"], rest, case)
         elif base[key][:2] != (r["exit"], rest):
